@@ -1461,11 +1461,10 @@ Proof. intros E1 E2 G x Hx. unfold GFs in *. rewrite E1. rewrite E2 in Hx. auto.
 Lemma RInv_spawn p fs t prog :
   RInv p fs -> main_pc p = [] -> t <> T_MAIN -> t <> T_FLUSH -> pc_get t p = [] -> worker_ok prog ->
   (forall x, npin x prog = nrel x prog) ->
-  (forall x, In (ICommit (Some (mkEdit [] [x] None)) false) [] -> True) ->
   (forall x L r n rest, pc_get T_FLUSH p = rest ++ [ICommit (Some (mkEdit [] [x] L)) r; IRenameLog n] -> npin x prog = O) ->
   RInv (pc_set t prog p) fs.
 Proof.
-  intros R Hm Ht Hf Hidle W Heq _ Hfl.
+  intros R Hm Ht Hf Hidle W Heq Hfl.
   pose proof (RInv_core _ _ R) as C. pose proof (vers_nonempty _ _ R Hm) as Hv.
   assert (Hr : forall x, spc (nrel x) (p_pcs (pc_set t prog p)) = (spc (nrel x) (p_pcs p) + nrel x prog)%nat).
   { intros x. pose proof (spc_set (nrel x) t prog p (nrel_nil x) (c_keys _ _ _ C)) as H. rewrite Hidle, nrel_nil in H. lia. }
